@@ -92,6 +92,11 @@ REWRITES = {
     "local_table_default": ("re", r"LocalTable::default\(\)", r"local_table_default()", "derived Default for LocalTable (an empty HashMap) -> shim"),
     "build_declarations_loop": ("re", r"(?s)self\.global_declarations\s*\.iter_mut\(\)\s*\.map\(\|dec\| \{\s*let offset = offset \+ dec\.offset;\s*\(dec, offset\)\s*\}\)\s*\.for_each\(\|\(dec, offset\)\| dec\.build\(table, offset\)\)", r"build_declarations_loop(&mut self.global_declarations, table, offset)", "R6: iter_mut().map(..).for_each(|(dec, offset)| dec.build(table, offset)) replaced by a call whose contract is `every global declaration is built in order with offset + its Reference offset, threading the global table`"),
     "drop_lookup_as_ref": ("re", r'table\.lookup\("main"\)\.as_ref\(\)', 'table.lookup("main")', "Option<&T>::as_ref() only adds a reference level to a pattern match (no vstd spec)"),
+    "char_indices_vec": ("re", r"text\.char_indices\(\)", r"char_index_vec(text)", "str::char_indices has no vstd specification (and the orphan rule forbids giving one): iterate the collected (offset, char) pairs instead - same elements, same order"),
+    "starts_with_char": ("re", r"rest\.starts_with\('\\n'\)", r"str_starts_with_char(rest, '\\n')", "str::starts_with(char) -> shim"),
+    "str_suffix": ("re", r"&text\[i \+ c\.len_utf8\(\)\.\.\]", r"str_suffix(text, i + char_len_utf8(c))", "&text[j..] and char::len_utf8 -> shims"),
+    "char_len_utf16": ("re", r"c\.len_utf16\(\)", r"char_len_utf16(c)", "char::len_utf16 -> shim"),
+    "str_len": ("re", r"\btext\.len\(\)", r"str_len(text)", "str::len -> shim (byte length)"),
     "drop_const_fn": ("re", r"\bconst fn\b", "fn", "const fn that calls non-const shim"),
 }
 
